@@ -177,6 +177,111 @@ def run(ctx: Ctx):
     warmup_rules(ctx)
     warmup_wrap(ctx)
     factory_binding(ctx)
+    history_rules(ctx)
+    factory_single_warmup(ctx)
+
+
+def factory_single_warmup(ctx: Ctx):
+    """C20.e the factory's "warmup" entry wraps its inner baseline once: the DEFAULT inner name must not be an entry that itself
+    returns a WarmupBaseline ("rollout" does) -- nested warm-ups weight the inner baseline with alpha^2 instead of alpha."""
+    import ast
+    fi = ctx.repo.get_function(BL, "get_reinforce_baseline")
+    ctx.fn(fi)
+    branches = {}
+    for n in ast.walk(fi.node):
+        if isinstance(n, ast.If) and isinstance(n.test, ast.Compare) and len(n.test.ops) == 1 and isinstance(n.test.ops[0], ast.Eq):
+            sides = [x.value for x in (n.test.left, n.test.comparators[0]) if isinstance(x, ast.Constant) and isinstance(x.value, str)]
+            if len(sides) == 1:
+                branches[sides[0]] = n
+    if "warmup" not in branches:
+        raise AnalysisError("get_reinforce_baseline: no branch for 'warmup'")
+    dflt = None
+    for c in ast.walk(branches["warmup"]):
+        if isinstance(c, ast.Call) and isinstance(c.func, ast.Attribute) and c.func.attr in ("get", "pop") and len(c.args) == 2 and isinstance(c.args[0], ast.Constant) and c.args[0].value == "baseline"                 and isinstance(c.args[1], ast.Constant):
+            dflt = c.args[1].value
+    if dflt is None:
+        raise AnalysisError("get_reinforce_baseline: default inner baseline of 'warmup' not found")
+    nested = False
+    if dflt in branches:
+        from ..model import returned_exprs
+        nested = any(isinstance(r, ast.Call) and ast.unparse(r.func).split(".")[-1] == "WarmupBaseline" for r in returned_exprs(fi.node, within=branches[dflt].body))
+    else:
+        reg = [n for n in ast.walk(ctx.repo.module_by_path(BL).tree) if isinstance(n, ast.Dict)]
+        for d_ in reg:
+            for k_, v_ in zip(d_.keys, d_.values):
+                if isinstance(k_, ast.Constant) and k_.value == dflt and ast.unparse(v_).split(".")[-1] == "WarmupBaseline":
+                    nested = True
+    ctx.ob("C20.e", "get_reinforce_baseline:warmup:inner-default-is-not-a-warm-up", not nested, fi.loc,
+           f"default inner baseline of 'warmup' is '{dflt}', which " + ("is itself built as a WarmupBaseline: the factory nests two warm-ups (weight alpha^2 on the inner baseline)" if nested else "is not a warm-up"),
+           construct="get_reinforce_baseline:warmup:nested-default")
+
+
+def history_rules(ctx: Ctx):
+    """C20.f `for any training history`: three structural conditions of the stateful objects themselves.
+    (1) The running statistics of RewardScaler start as dtype-neutral zeros (Python numbers), so they take the precision of the
+        values observed; accumulators created with an explicit float32 / float16 dtype round every later update to it.
+    (2) WarmupBaseline owns a moving average of its own: `warmup_baseline` is a freshly constructed ExponentialBaseline on every
+        path, never the wrapped baseline (one shared object would be advanced twice per step and combined with itself).
+    (3) REINFORCE.on_train_epoch_end advances the baseline after EVERY epoch: the `epoch_callback` call is an unconditional
+        top-level statement (the warm-up weight is a function of the epochs completed, including the one the trainer stops at)."""
+    import ast
+    # (1)
+    cls = ctx.repo.get_class(UT, "RewardScaler")
+    ini = cls.methods["__init__"]
+    ctx.fn(ini)
+    for attr in ("mean", "M2"):
+        vals = [st.value for st in ast.walk(ini.node) if isinstance(st, ast.Assign) and any(isinstance(t, ast.Attribute) and t.attr == attr and isinstance(t.value, ast.Name) and t.value.id == "self" for t in st.targets)]
+        if len(vals) != 1:
+            raise AnalysisError(f"RewardScaler.__init__: self.{attr} not initialised exactly once")
+        v = vals[0]
+        narrow = [k for k in (v.keywords if isinstance(v, ast.Call) else []) if k.arg == "dtype" and any(t in ast.unparse(k.value) for t in ("float32", "float16", "half", "bfloat16", "torch.float)", "int"))
+                  or (k.arg == "dtype" and ast.unparse(k.value) in ("torch.float", "float"))]
+        zero = (isinstance(v, ast.Constant) and v.value == 0) or (isinstance(v, ast.Call) and ast.unparse(v.func) in ("torch.zeros", "torch.tensor", "torch.zeros_like"))
+        ok = zero and not narrow
+        ctx.ob("C20.f", f"RewardScaler.__init__:{attr}:dtype-neutral-zero", ok, ini.loc,
+               f"self.{attr} = {ast.unparse(v)[:60]}: starts at zero {zero}; pinned to a narrow dtype: {bool(narrow)}" +
+               ("" if ok else " -- later in-place updates are rounded to that dtype whatever the precision of the observed values"),
+               construct=f"RewardScaler.__init__:{attr}:init")
+    # (2)
+    wb = ctx.repo.get_class(BL, "WarmupBaseline")
+    wi = wb.methods["__init__"]
+    ctx.fn(wi)
+    it = vg.Interp(ctx.repo, wb, inline_policy=lambda f, a: False)
+    it.run_function(wi)
+    v = it.selfattrs.get("warmup_baseline")
+    alts = []
+
+    def leaves(n):
+        if isinstance(n, vg.S) and n.op in ("phi", "ifexp"):
+            for a in n.args[1:]:
+                leaves(a)
+        else:
+            alts.append(n)
+    leaves(v)
+    def _ctor(a):
+        if not (isinstance(a, vg.S) and a.op == "call"):
+            return False
+        f = a.args[0]
+        nm = f.args[0] if isinstance(f, vg.S) and f.args and isinstance(f.args[0], str) else (vg.show(f, 1) if isinstance(f, vg.S) else str(f))
+        return str(nm).split(":")[-1].split(".")[-1] == "ExponentialBaseline"
+    own = bool(alts) and all(_ctor(a) for a in alts)
+    ctx.ob("C20.f", "WarmupBaseline.__init__:own-moving-average", own, wi.loc,
+           f"self.warmup_baseline on its {len(alts)} path(s): " + ", ".join(vg.show(a, 2)[:40] for a in alts[:3]) + (" -- a constructor call on every path" if own else
+           " -- on some path it is an existing object (the wrapped baseline): both sides of the convex combination then share one state"),
+           construct="WarmupBaseline.__init__:warmup-baseline-fresh")
+    # (3)
+    rc = ctx.repo.get_class("rl4co/models/rl/reinforce/reinforce.py", "REINFORCE")
+    fe = rc.methods.get("on_train_epoch_end")
+    if fe is None:
+        raise AnalysisError("REINFORCE.on_train_epoch_end not found")
+    ctx.fn(fe)
+    calls = [c for c in ast.walk(fe.node) if isinstance(c, ast.Call) and isinstance(c.func, ast.Attribute) and c.func.attr == "epoch_callback"]
+    top = [st for st in fe.node.body if isinstance(st, ast.Expr) and isinstance(st.value, ast.Call) and isinstance(st.value.func, ast.Attribute) and st.value.func.attr == "epoch_callback"]
+    early = [st for st in fe.node.body[:fe.node.body.index(top[0])] for r in ast.walk(st) if isinstance(r, ast.Return)] if top else []
+    ok3 = len(calls) == 1 and len(top) == 1 and not early
+    ctx.ob("C20.f", "REINFORCE.on_train_epoch_end:baseline-advanced-every-epoch", ok3, fe.loc,
+           f"baseline.epoch_callback is an unconditional statement of the hook: {ok3}" + ("" if ok3 else " -- for the epochs the condition skips, alpha and the challenger test do not advance"),
+           construct="REINFORCE.on_train_epoch_end:epoch-callback-unconditional")
 
 
 def factory_binding(ctx: Ctx):
